@@ -84,6 +84,7 @@ func runC20Unit(c caseC20, rec *kit.Recorder) error {
 	id, err := core.NewCrossChainID(p, c.Counterparty)
 	if err != nil {
 		rec.Label("unit", "refused")
+		rec.Sample("refused", c)
 		// conversely: every canonical decimal of a 32-bit domain is accepted for CCTP/Hyperlane
 		if (c.Protocol == kit.ProtoCCTP || c.Protocol == kit.ProtoHyp) && isCanonicalDomain(c.Counterparty) {
 			return fmt.Errorf("canonical domain %q is refused for protocol %d: %v", c.Counterparty, c.Protocol, err)
@@ -91,6 +92,7 @@ func runC20Unit(c caseC20, rec *kit.Recorder) error {
 		return nil
 	}
 	rec.Label("unit", "accepted")
+	rec.Sample("accepted", map[string]any{"case": c, "id": id.ID()})
 	// (1) round trip and injectivity
 	back, err := core.ParseCrossChainID(id.ID())
 	if err != nil {
@@ -150,6 +152,7 @@ func runC20Paths(w *world.World, c caseC20, rec *kit.Recorder) error {
 	qerr := w.Query(ctx, fwdQuery+"IsCrossChainPaused", &forwardertypes.QueryIsCrossChainPausedRequest{ProtocolId: name, CounterpartyId: c.Counterparty}, &q)
 	if !canonical {
 		rec.Label("paths", "non-canonical string")
+		rec.Sample("paths/non-canonical", c)
 		switch {
 		case gerr == nil:
 			return fmt.Errorf("genesis validation accepts the non-canonical %s counterparty %q", name, c.Counterparty)
@@ -161,6 +164,7 @@ func runC20Paths(w *world.World, c caseC20, rec *kit.Recorder) error {
 		return nil
 	}
 	rec.Label("paths", "canonical string")
+	rec.Sample("paths/canonical", c)
 	rec.NonTrivial(fmt.Sprintf("paths|%d|%s", c.Protocol, c.Counterparty))
 	if gerr != nil || !res.OK() || qerr != nil || !q.IsPaused {
 		return fmt.Errorf("canonical %s domain %q: genesis %v, pause %v, query %v paused=%v", name, c.Counterparty, gerr, res.Err, qerr, q.IsPaused)
